@@ -66,8 +66,8 @@ RULE = (
     "mode, hostile text, per-gene isoform/coding/strand pattern, feature and variant counts, bounds given); non-trivial = the collection "
     "was constructed and has at least one child or explicit bounds."
 )
-SCOPE = {"quick": {"RT": 34, "SENS": 8, "PERT": 5, "BATCHES": 2, "BATCH": 20, "NSEEDS": 8},
-         "thorough": {"RT": 420, "SENS": 90, "PERT": 12, "BATCHES": 4, "BATCH": 40, "NSEEDS": 64}}
+SCOPE = {"quick": {"RT": 90, "SENS": 20, "PERT": 6, "BATCHES": 2, "BATCH": 24, "NSEEDS": 8},
+         "thorough": {"RT": 900, "SENS": 200, "PERT": 12, "BATCHES": 4, "BATCH": 40, "NSEEDS": 64}}
 FLOOR = {"quick": 250, "thorough": 2000}
 REQUIRED_MONITORS = ["qualifiers.normalised", "dict.roundtrip", "dict.guid-recomputed", "dict.export-parent", "model.roundtrip",
                      "pickle.roundtrip", "guid.insertion-order", "guid.cross-process", "xproc.roundtrip", "guid.sensitivity", "guid.locality"]
@@ -412,6 +412,23 @@ def _run_rt(case, ctx):
         ctx.check("dict.guid-recomputed", d is None, key=("column", _abstract(d[0]) if d else None), path=d[0] if d else None,
                   want=d[1] if d else None, got=d[2] if d else None, **info)
 
+    # ---- informational (no verdict): what K8 looks like from here.  A dictionary exported from a chunk-built collection carries the
+    # computed child guids, so they survive an import on *another* parent; only the collection's own guid is always recomputed.
+    if pmode.startswith("chunk") and nchildren:
+        other, exc = ctx.call(AnnotationCollection.from_dict, ac.to_dict(), None)
+        if exc is None:
+            ctx.bump("k8-info:chunk-built-collections-reimported-without-parent")
+            a, b = S.guid_columns(ac), S.guid_columns(other)
+            ctx.bump("k8-info:collection-guid-differs" if a["collection"] != b["collection"] else "k8-info:collection-guid-equal")
+            ctx.bump("k8-info:child-guids-all-preserved" if {k: v for k, v in a.items() if k not in ("collection", "cds")} ==
+                     {k: v for k, v in b.items() if k not in ("collection", "cds")} else "k8-info:child-guids-changed")
+        other, exc = ctx.call(AnnotationCollection.from_dict, _strip_computed(ac.to_dict(), coll), None)
+        if exc is None and case.get("guids") == "computed":
+            a, b = S.guid_columns(ac), S.guid_columns(other)
+            ctx.bump("k8-info:stripped-dict:gene-guids-differ" if a["genes"] != b["genes"] else "k8-info:stripped-dict:gene-guids-equal")
+            ctx.bump("k8-info:stripped-dict:transcript-feature-guids-differ" if (a["transcripts"], a["features"]) != (b["transcripts"], b["features"])
+                     else "k8-info:stripped-dict:transcript-feature-guids-equal")
+
     # ---- the dictionary that carries its own parent -----------------------------------------------------------
     _same(ctx, "dict.export-parent", "from_dict(export_parent)", ac, s0, lambda: AnnotationCollection.from_dict(ac.to_dict(export_parent=True)), **info)
 
@@ -463,6 +480,25 @@ def _run_rt(case, ctx):
             ctx.check("pickle.roundtrip", d is None, key=("state", _abstract(d[0]) if d else None), route=f"pickle-protocol-{proto}",
                       cls="AnnotationCollection", stage="to_dict(export_parent=True)", path=d[0] if d else None, want=_short(d[1]) if d else None,
                       got=_short(d[2]) if d else None, **info)
+
+    # ---- a collection the library built itself: the result of a range query (library-made chunk parent, lifted children) --------
+    if nchildren and ac.start is not None and ac.end - ac.start >= 2:
+        r2 = random.Random(case["shuffle"])
+        qs = r2.randint(ac.start, ac.end - 2)
+        qe = r2.randint(qs + 1, ac.end)
+        sub, exc = ctx.call(ac.query_by_position, qs, qe, completely_within=r2.random() < 0.5)
+        if exc is not None or sub is None:
+            ctx.bump("query-refused")  # which queries are answered belongs to C09
+        else:
+            ctx.bump("query-derived-collections")
+            ctx.bump("query-derived-nonempty" if len(sub) else "query-derived-empty")
+            s_sub = snap(sub)
+            qinfo = dict(info, query=[qs, qe])
+            sub_parent = sub.chunk_relative_location.parent
+            _same(ctx, "dict.roundtrip", "query-result/from_dict", sub, s_sub, lambda: AnnotationCollection.from_dict(sub.to_dict(), sub_parent), **qinfo)
+            _same(ctx, "dict.export-parent", "query-result/from_dict(export_parent)", sub, s_sub,
+                  lambda: AnnotationCollection.from_dict(sub.to_dict(export_parent=True)), **qinfo)
+            _same(ctx, "pickle.roundtrip", "query-result/pickle", sub, s_sub, lambda: pickle.loads(pickle.dumps(sub)), **qinfo)
 
     # ---- insertion order ------------------------------------------------------------------------------------------
     _, ac_s, exc = _build(case, ctx, shuffle=case["shuffle"])
@@ -646,12 +682,44 @@ def _run_xproc(case, ctx):
 # ----------------------------------------------------------------------------------------------------------------
 # known / proposed findings (mechanistic classifiers over the witness)
 # ----------------------------------------------------------------------------------------------------------------
+_PARENT_FIELDS = ("chrom.parent_id", "chrom.parent_type", "chunk.parent_id", "chunk.parent_type", "chunk.blocks", "has_seq", "refseq")
+
+
+def _first_path(d):
+    if d.get("path"):
+        return d["path"]
+    f = d.get("first_snapshot_difference")
+    if f:
+        try:
+            return json.loads(f)[0]
+        except Exception:  # noqa: BLE001 - a truncated witness simply does not classify
+            return None
+    return None
+
+
 def classify(v):
+    import re
+
     d = v.get("detail") or {}
     m = v["monitor"]
-    if m == "dict.roundtrip" and d.get("cls") == "CDSInterval" and d.get("cds_guid") == "explicit" and d.get("stage") in ("snapshot", "library-eq"):
-        # CDSInterval.to_dict() has no guid field (its key set is pinned by tests/minimal/gene/test_cds.py::test_dict_chunk_relative), so a
-        # guid supplied to the constructor cannot survive from_dict(to_dict()): the only difference is the guid itself.
-        if d.get("stage") == "snapshot" and d.get("path") == "guid":
+    path = _first_path(d) or ""
+    if m == "dict.roundtrip" and d.get("cls") == "CDSInterval" and d.get("cds_guid") == "explicit":
+        # K19: CDSInterval.to_dict() has no guid field (its key set is pinned by tests/minimal/gene/test_cds.py::test_dict_chunk_relative), so a
+        # guid supplied to the constructor cannot survive from_dict(to_dict()): the guid itself is the only difference.
+        if d.get("stage") == "snapshot" and path == "guid":
             return "K19-cds-explicit-guid-not-exported"
+        return None
+    if m in ("dict.roundtrip", "dict.export-parent", "pickle.roundtrip", "xproc.roundtrip") and d.get("parent_mode") not in (None, "none"):
+        # proposed fix C08-variant-from-dict-drops-parent: VariantInterval.from_dict() does not forward parent_or_seq_chunk_parent, so the
+        # rebuilt variant (alone or nested in a collection) has no parent: the first difference is a parent-derived observation of a variant.
+        on_variant = d.get("cls") == "VariantInterval" or re.search(r"(^|\.)variants\[\d+\]\.", path) is not None
+        tail = re.sub(r"^.*variants\[\d+\]\.", "", path)
+        if on_variant and tail in _PARENT_FIELDS and d.get("stage") in ("snapshot", "library-eq"):
+            return "F-variant-from-dict-drops-parent"
+    if m == "model.roundtrip" and d.get("stage") == "to-model-raised" and d.get("cls") in ("VariantInterval", "VariantIntervalCollection", "AnnotationCollection"):
+        # proposed fix C08-variant-to-dict-guid-key-not-in-model: VariantInterval.to_dict() calls its identifier "guid", the model field is
+        # "variant_interval_guid"; marshmallow refuses the unknown key, and only that key, inside variant_intervals.
+        exc = d.get("exc") or ""
+        if exc.startswith("ValidationError") and "'guid': ['Unknown field.']" in exc and not re.search(r"'(?!guid')[a-z_]+': \['Unknown field", exc):
+            return "F-variant-to-dict-guid-key-not-in-model"
     return None
